@@ -147,7 +147,7 @@ func (e *Engine) doCall(s *State, d deferred, in ssa.Instruction) []callOut {
 		if sp, ok := extInvoke[key]; ok {
 			return []callOut{{s, sp(e, s, c, append([]*Val{recv}, d.args...), in)}}
 		}
-		return []callOut{{s, e.unknownCall(s, key, resT, d.args, in)}}
+		return []callOut{{s, e.unknownCall(s, key, resT, append([]*Val{recv}, d.args...), in)}}
 	}
 	if b, ok := c.Value.(*ssa.Builtin); ok {
 		return []callOut{{s, e.builtin(s, b, c, d.args, in)}}
